@@ -37,6 +37,11 @@ pub fn dash_path(path: &Path, dash_array: &[f32], mut dash_offset: f32) -> Path 
     dash_offset = dash_offset % total_dash_length;
     if dash_offset < 0. {
         dash_offset += total_dash_length;
+        // the entries can be so large that their sum is infinite. There's no way
+        // to count back from infinity (and the loop below would never finish)
+        if dash_offset == f32::INFINITY {
+            dash_offset = 0.;
+        }
     }
 
     // To handle closed paths we need a bunch of extra state so that we properly
